@@ -48,6 +48,11 @@ theorem C16_send_sync_bounds :
     unsafeImplSendDrainFilter = .absent ∧ unsafeImplSyncDrainFilter = .absent := by
   decide
 
+/-- the four iterator types offer no public inherent method besides `IntoIter::as_slice` / `as_mut_slice` (whose results
+    borrow from `&self` / `&mut self` by elision): in particular no method that hands out a borrow carrying the iterator's own
+    lifetime parameter, and no public constructor whose lifetime is tied to nothing -/
+theorem C16_iterator_api_fixed : iteratorPubFns = ["IntoIter::as_mut_slice", "IntoIter::as_slice"] := by decide
+
 /-- no public method other than `leak` declares a lifetime parameter of its own: a reference a method passes to a
     callback (`retain`, `dedup_by`, `dedup_by_key`, `drain_filter`) therefore has a fresh, higher-ranked lifetime the
     callback cannot let escape, and every returned borrow is tied to `self` by elision -/
@@ -193,3 +198,4 @@ end MV.Props.C16
 #print axioms MV.Props.C16.C16_shared_borrow_excludes_mutation
 #print axioms MV.Props.C16.C16_twin_accepted
 #print axioms MV.Props.C16.C16_thread_safety
+#print axioms MV.Props.C16.C16_iterator_api_fixed
